@@ -460,7 +460,10 @@ EXTRA_TEXT = {
          "tostream is EXACTLY the events of the value (leaf event [p, leaf] with getpath(p) = leaf in document order, closing event "
          "after the last child of every non-empty container); paths and path(..) are the same pre-order walk, path(..) emits the root "
          "[] first and paths drops exactly that path: [paths] = [path(..)] minus the root, same order, for every value. "
-         "fromstream(tostream) and the setpath replay remain theorems over the hand transcriptions (props/C13.v). 39 theorems."),
+         "fromstream(f) of the pinned text is a foreach cell whose step on a leaf / closing event is an explicit transformer of the "
+         "accumulator, and the observation of fromstream(tostream) on a well-formed value is the pure fold of those steps over the "
+         "events of the value (the evaluator no longer appears); that this fold returns [v] (setpath algebra) and the setpath replay "
+         "remain theorems over the hand transcriptions (props/C13.v). 42 theorems."),
  "C14": (" Implementation oracle capture-names: with Go's SubexpNames as the independent source, every capture of every match carries "
          "its group's name (also non-participating groups) and capture has exactly the named groups as keys."),
  "C15": (" SECOND WAVE (props/C15b.v, 18 theorems, closed): the command FROM ARGV - cli_main = flags parser (coq/c08 over the "
